@@ -49,7 +49,11 @@ pub fn lockstep<S: Sch>(cfg: &Cfg, history: &[Op]) -> Verdict {
         let tag = format!("op {} ({:?})", n, op);
         match op {
             Op::Open(k) => {
-                let idx = w.at_point(*k);
+                let mut idx = w.at_point(*k);
+                // both flags: the same descending-label order on the prover's and on the verifier's side
+                if cfg.rev_prover && cfg.rev_verifier {
+                    idx.reverse();
+                }
                 let proof = match w.open(&idx, *k, &mut sp_p) {
                     Ok(p) => p,
                     Err(e) => return Verdict::viol(&format!("open-err:{}", e), tag),
